@@ -253,6 +253,7 @@ fn kvi(k: &str, v: i64) -> (String, Val) {
 pub struct Probe {
     pub name: String,
 }
+#[cfg_attr(feature = "asynctrait", ractor::async_trait)]
 impl Actor for Probe {
     type Msg = PMsg;
     type State = ();
@@ -279,6 +280,7 @@ impl Actor for Probe {
 pub struct QProbe {
     pub name: String,
 }
+#[cfg_attr(feature = "asynctrait", ractor::async_trait)]
 impl Actor for QProbe {
     type Msg = QMsg;
     type State = ();
